@@ -180,7 +180,15 @@ def prove_case(hid, case, timeout_ms, common_impl="py", exclude_regions=(), max_
                                                    "backends": {}, "models": [], "details": []})
                 if c.get("detail") is not None and len(d["details"]) < 3:
                     d["details"].append(c["detail"])
-                d[c["status"]] += 1
+                st = c["status"]
+                if st == "refuted" and c["label"].startswith("call:") and "/pre:" in c["label"]:
+                    # a callee's contract is not applicable at this call site: the caller cannot be verified
+                    # against it - undecided (bounded stand-in), not a refutation of the caller
+                    st = "unknown"
+                    if len(d["details"]) < 3:
+                        d["details"].append("callee precondition not established; model %s" % json.dumps(c.get("model"))[:200])
+                d[st] += 1
+                c = dict(c, status=st)
                 d["seconds"] += c["seconds"]
                 d["backends"][c["backend"]] = d["backends"].get(c["backend"], 0) + 1
                 if c["status"] == "refuted" and len(d["models"]) < 3:
